@@ -667,6 +667,9 @@ class GTVFScheme(Scheme):
         props = list(dummy.properties.keys())
         props += [dict(name=p, stride=v) for p, v in dummy.stride.items()]
         output_props = dummy.output_property_arrays
+        if len(self.solids) > 0:
+            # SolidWallNoSlipBC on the fluid needs the fluid's volume.
+            props += ['V']
         for fluid in self.fluids:
             pa = particle_arrays[fluid]
             self._ensure_properties(pa, props, clean)
